@@ -33,7 +33,7 @@ ASSUMPTIONS = [
     "pure-Python fastavro only (Cython absent)",
 ]
 UNIT_TIMEOUT_S = 1500
-KINDS = ["field", "array", "map", "union"]
+KINDS = ["field", "array", "map", "union", "union-first", "union-mid"]
 
 
 def dags(n):
@@ -111,6 +111,10 @@ def use(kind, name):
         return {"type": "array", "items": name}
     if kind == "map":
         return {"type": "map", "values": name}
+    if kind == "union-first":
+        return [name, "null"]  # the named type is not the last branch
+    if kind == "union-mid":
+        return ["null", name, "string"]
     return ["null", name]
 
 
@@ -183,8 +187,41 @@ def topo_orders(n, es, ns):
     return out
 
 
+CHAIN_DEPTHS = {"quick": (2, 16, 17, 18, 19, 33), "thorough": (2, 16, 17, 18, 19, 33, 64, 65, 100)}
+
+
+def check_chain(fa, res, tmpdir, depth, seen):
+    """A straight chain of `depth` per-file types below the root (acyclic, each referring to the next): loading it equals
+    the nested inline definition, however deep."""
+    d = os.path.join(tmpdir, "chain%d" % depth)
+    os.makedirs(d)
+    for i in range(depth + 1):
+        s = {"type": "record", "name": "Level%d" % i, "namespace": "deep", "fields": [{"name": "v", "type": "int"}]}
+        if i < depth:
+            s["fields"].append({"name": "next", "type": ["null", "deep.Level%d" % (i + 1)] if i % 2 else "Level%d" % (i + 1)})
+        with open(os.path.join(d, "deep.Level%d.avsc" % i), "w") as f:
+            json.dump(s, f)
+    inl = None
+    for i in range(depth, -1, -1):
+        s = {"type": "record", "name": "Level%d" % i, "namespace": "deep", "fields": [{"name": "v", "type": "int"}]}
+        if inl is not None:
+            s["fields"].append({"name": "next", "type": ["null", inl] if i % 2 else inl})
+        inl = s
+    want = canon.canonical(names.resolve(inl))
+    info = {"chain_depth": depth, "n": depth + 1, "layout": "chain"}
+    seen.add("chain%d" % depth)
+    res.evals += 1
+    try:
+        got = canon_of(fa, fa.schema.load_schema(os.path.join(d, "deep.Level0.avsc")))
+    except Exception as e:
+        res.add(Violation("c19.load", f"load-raised:{type(e).__name__}:chain", f"load_schema on an acyclic chain of {depth} nested per-file types raised {type(e).__name__}: {str(e)[:200]}", info))
+        return
+    if got != want:
+        res.add(Violation("c19.canonical", "canonical-form-differs:chain", f"chain of {depth}: canonical form differs from the inline definition", info))
+
+
 def units(tier):
-    us = []
+    us = [("chain", k, 0) for k in CHAIN_DEPTHS[tier]]
     for n in ((1, 2, 3) if tier == "quick" else (1, 2, 3, 4)):
         for gi, es in enumerate(dags(n)):
             for ki, kinds in enumerate(sink_kind_options(n, es)):
@@ -331,6 +368,16 @@ def run_unit(unit, tier):
 
     res = UnitResult()
     n, gi, ki = unit
+    if n == "chain":
+        seen = set()
+        tmpdir = tempfile.mkdtemp(prefix="verif-c19-")
+        try:
+            check_chain(fa, res, tmpdir, gi, seen)
+        finally:
+            shutil.rmtree(tmpdir, ignore_errors=True)
+        res.distinct = len(seen)
+        res.sample({"chain_depth": gi})
+        return res
     es = dags(n)[gi]
     kinds = sink_kind_options(n, es)[ki]
     seen = set()
@@ -359,6 +406,9 @@ def replay(case):
     res = UnitResult()
     tmpdir = tempfile.mkdtemp(prefix="verif-c19-")
     try:
+        if case.get("layout") == "chain":
+            check_chain(fa, res, tmpdir, case["chain_depth"], set())
+            return res.violations
         check_repo(fa, res, tmpdir, case["n"], tuple(map(tuple, case["edges"])), tuple(case["kinds"]), tuple(case["namespaces"]),
                    tuple(map(tuple, case["realisation"])), set(), "quick", layout=case.get("layout", "plain"))
     finally:
